@@ -59,6 +59,7 @@ NameF(t, nm) ==
   IN [n \in DOMAIN base |->
         IF ent(n).k \in {"name", "cname", "gateway"} THEN nm
         ELSE IF ent(n).k = "names" THEN << nm, nm >>
+        ELSE IF ent(n).k = "bitmap0" THEN <<>>          \* NXT: the library's bitmap format is C01's finding, kept out of here
         ELSE IF \E j \in 1..Len(es) : es[j].k = "gateway" /\ es[j].of = n THEN 3
         ELSE base[n]]
 \* variant 1: the RDATA names ARE the question name; 2: one more label in front
